@@ -3,6 +3,7 @@ import PytezosModel.Proofs.InterpTables
 import PytezosModel.Proofs.InterpRefine
 import PytezosModel.Proofs.InterpGuard
 import PytezosModel.Proofs.InterpProgress
+import PytezosModel.Proofs.InterpUnpackPack
 /-! C01 — the interpreter computes the Michelson result, or fails with the FAILWITH value, that the
 reference semantics prescribes.
 
@@ -46,13 +47,13 @@ def WellFormed (v : Val) : Prop := Typing.checkVal false v (typeOf v) = true ∧
 body (its MAP bodies keep the element type) -/
 def StrictWF (v : Val) : Prop := Typing.checkVal true v (typeOf v) = true ∧ Typing.litOk v = true
 
-/-- **shape digests**: for each of the 99 instruction forms, the helpers (`execute_dip`, `execute_shift`, `dispatch_types`
+/-- **shape digests**: for each of the 102 instruction forms, the helpers (`execute_dip`, `execute_shift`, `dispatch_types`
 …) and the `MichelsonStack` / `PairType` / `from_value` methods they call, the normalised statement list in the source
 is the one the mirror `Impl` was written from (translator/c01.py, `SHAPES`) -/
 theorem source_bodies_recognised : Generated.C01.bodyRecognised.all (·.2) = true := by decide
 
-/-- the digest list covers all 99 instruction forms -/
-theorem source_bodies_cover_all_forms : Generated.C01.modelledForms = 99 ∧ 99 ≤ Generated.C01.bodyRecognised.length := by
+/-- the digest list covers all 102 instruction forms -/
+theorem source_bodies_cover_all_forms : Generated.C01.modelledForms = 102 ∧ 102 ≤ Generated.C01.bodyRecognised.length := by
   decide +kernel
 
 /-- the `dispatch_types` tables read from arithmetic.py are the reference tables -/
@@ -223,7 +224,7 @@ end
 the PUSHed lambda literals, in LAMBDA bodies — leaves an element of the type it was given.  For such programs, run on
 strictly well-typed values (`StrictWF`: the lambdas on the input stack have strictly typed bodies too), the guard of
 `welltyped_run_eq_reference` never fires, so C01's statement holds with static hypotheses only.  The invariant "every
-lambda on the stack has a strictly typed body" is carried through all 99 instruction forms by the same preservation /
+lambda on the stack has a strictly typed body" is carried through all 102 instruction forms by the same preservation /
 progress development as the non-strict one, instantiated at the mode `Mode.strictGuarded`. -/
 
 /-- strict typing refines typing: same result -/
@@ -286,6 +287,56 @@ theorem strict_program_run (env : Env) (fuel : Nat) (i : Instr) (tr : TRes)
   welltyped_program_run env fuel i tr (strict_typing_is_typing i _ tr hty) hlit
     (strict_guard_never_fires env fuel i [] tr hty (by simp) hlit)
 
+/-- **`UNPACK t (PACK v) = Some v`** (extra theorem of extension 3).  For every type `t` UNPACK is modelled for (`Typing.unpackable`),
+every well-typed value `v` of type `t` whose strings are Michelson strings (`Interp.strOk`: printable ASCII and newlines — the
+typing of the model does not say it), and every environment: the bytes pytezos' PACK answers for `v` are turned back into
+`Some v` by its UNPACK at `t`.  (The reference semantics has the same property: `Interp.unpackV_packV`.) -/
+theorem unpack_pack (env : Env) (v : Val) (t : Ty) (bs : List Nat)
+    (hu : Typing.unpackable t = true) (hwf : WellFormed v) (ht : typeOf v = t) (hs : Interp.strOk v = true)
+    (hp : Impl.execPack v = .ok (.bytes bs)) : Impl.execUnpack env t (.bytes bs) = .ok (.some v) :=
+  Interp.execUnpack_execPack env false v t bs hu (ht ▸ hwf.1) hwf.2 hs hp
+
+/-- the same as a run of the machine: `PACK ; UNPACK t` on a stack with `v` on top leaves `Some v` on top — or fails at run time
+when the serialization reaches 2^32 bytes -/
+theorem pack_unpack_run (env : Env) (fuel : Nat) (v : Val) (t : Ty) (st : List Val)
+    (hu : Typing.unpackable t = true) (hwf : WellFormed v) (ht : typeOf v = t) (hs : Interp.strOk v = true) :
+    Impl.run env (fuel + 4) (.seq [.PACK, .UNPACK t]) (v :: st) = .ok (.some v :: st) ∨
+    Impl.run env (fuel + 4) (.seq [.PACK, .UNPACK t]) (v :: st) = .rtfail := by
+  have hev : Spec.eval true env (fuel + 4) (.seq [.PACK, .UNPACK t]) (v :: st)
+      = (Spec.packV v).bind fun r => (Spec.unpackV env t r).bind fun o => .ok (o :: st) := by
+    simp only [Spec.eval, Spec.evalSeq, Spec.step, Spec.stepMore, Spec.stepExt, Spec.unV, Res.bind]
+    cases Spec.packV v <;> simp
+    rename_i r
+    cases Spec.unpackV env t r <;> simp
+  cases hq : Spec.packV v with
+  | ok r =>
+    have hb : ∃ bs, r = .bytes bs := by
+      unfold Spec.packV at hq
+      split at hq
+      · cases hq
+      · split at hq
+        · cases hq
+        · split at hq
+          · exact ⟨_, (Res.ok.inj hq).symm⟩
+          · cases hq
+    obtain ⟨bs, rfl⟩ := hb
+    have hun := Interp.unpackV_packV env false v t bs hu (ht ▸ hwf.1) hwf.2 hs hq
+    exact Or.inl (run_ok env (fuel + 4) _ _ _ (by rw [hev, hq]; simp [Res.bind, hun]))
+  | rtfail => exact Or.inr (run_rtfail env (fuel + 4) _ _ (by rw [hev, hq]; rfl))
+  | stuck =>
+    exfalso
+    have hsome := Interp.optBoth_some false v (typeOf v) hwf.1 (by
+      have := hu; rw [← ht] at this
+      exact Interp.unpackable_packable this)
+    unfold Spec.packV at hq
+    rw [show Typing.packable (typeOf v) = true from Interp.unpackable_packable (ht ▸ hu)] at hq
+    cases hb : Spec.optBoth v with
+    | none => simp [hb] at hsome
+    | some y => simp only [Spec.optimized, hb, Option.map_some, Bool.not_true, Bool.false_eq_true, if_false] at hq; cases he : Spec.encodeM y.1 <;> simp [he] at hq
+  | failed _ => unfold Spec.packV at hq; split at hq <;> (try split at hq) <;> (try split at hq) <;> cases hq
+  | oof => unfold Spec.packV at hq; split at hq <;> (try split at hq) <;> (try split at hq) <;> cases hq
+  | offguard => unfold Spec.packV at hq; split at hq <;> (try split at hq) <;> (try split at hq) <;> cases hq
+
 /-- the stack discipline alone: DIP n / DIG n / DUG n / DUP n through `protect`/`restore` are `take`/`drop`
 on the visible stack, for every depth, stack and prefix -/
 theorem dip_n_spec (env : Env) (fuel n : Nat) (body : Instr) (pre st st' : List Val) (hn : n ≤ st.length)
@@ -307,7 +358,7 @@ theorem map_empty_counterexample :
       = .ok [.list .timestamp []] ∧
     Spec.eval true env0 5 (.seq [.NIL .timestamp, .MAP (.seq [.DROP, .PUSH .int (.num .int 0)])]) [] = .offguard := by
   refine ⟨?_, ?_, ?_⟩ <;>
-    simp [Spec.eval, Spec.evalSeq, Spec.evalMap, Spec.step, Spec.listOf, Spec.mapOutTy, Typing.typeInstr, Typing.typeSeq,
+    simp [Spec.eval, Spec.evalSeq, Spec.evalMap, Spec.step, Spec.listOf, Spec.mapOutTy, Typing.typeInstr, Typing.typeSeq, Typing.pushable,
       Typing.step, Typing.checkVal, Impl.run, Impl.exec, Impl.execSeq, Impl.step, Impl.mapLoop, Stack.push, Stack.pop1,
       Stack.pop, Res.bind, typeOf]
 
@@ -442,6 +493,88 @@ example : Impl.run env0 20 (.seq [.PUSH (.map .string (.option .bool)) (.map .st
   run_ok env0 20 _ [] _ (by rfl)
 -- a lambda or an address has a packed form too, but not in the model: not a packable type here
 example : Typing.typeInstr false .PACK [.address] = none := by rfl
+
+-- extension 3, phase 1: UNPACK reads the optimized form PACK writes, and the other spellings the protocol accepts — a comb as
+-- `Pair x y z` (`09 07 <length> … <no annotations>`) or as a sequence —, and answers None on everything else: trailing bytes, a
+-- missing `05`, a non-minimal integer (`00 80 00`), an annotated constructor (`04 0b … "%a"`), an unsorted set, a negative `nat`,
+-- `Pair 1 2 3` where the right component is a list
+def tIIN : Ty := .pair .int (.pair .int .nat)
+example : Spec.eval true env0 20 (.seq [.PUSH tIIN (.pair (.num .int 1) (.pair (.num .int (-2)) (.num .nat 3))), .PACK, .UNPACK tIIN]) []
+    = .ok [.some (.pair (.num .int 1) (.pair (.num .int (-2)) (.num .nat 3)))] := by rfl
+example : Spec.eval true env0 20 (.seq [.PUSH .bytes (.bytes [5, 9, 7, 0, 0, 0, 6, 0, 1, 0, 66, 0, 3, 0, 0, 0, 0]), .UNPACK tIIN,
+      .PUSH .bytes (.bytes [5, 2, 0, 0, 0, 6, 0, 1, 0, 66, 0, 3]), .UNPACK tIIN]) []
+    = .ok [.some (.pair (.num .int 1) (.pair (.num .int (-2)) (.num .nat 3))), .some (.pair (.num .int 1) (.pair (.num .int (-2)) (.num .nat 3)))] := by rfl
+example : Spec.eval true env0 20 (.seq [.PUSH .bytes (.bytes [5, 0, 1, 0]), .UNPACK .int, .PUSH .bytes (.bytes [0, 1]), .UNPACK .int,
+      .PUSH .bytes (.bytes [5, 0, 128, 0]), .UNPACK .int, .PUSH .bytes (.bytes [5, 4, 11, 0, 0, 0, 2, 37, 97]), .UNPACK .unit]) []
+    = .ok [.none .unit, .none .int, .none .int, .none .int] := by rfl
+example : Spec.eval true env0 20 (.seq [.PUSH .bytes (.bytes [5, 2, 0, 0, 0, 4, 0, 2, 0, 1]), .UNPACK (.set .int),
+      .PUSH .bytes (.bytes [5, 0, 65]), .UNPACK .nat,
+      .PUSH .bytes (.bytes [5, 9, 7, 0, 0, 0, 6, 0, 1, 0, 2, 0, 3, 0, 0, 0, 0]), .UNPACK (.pair .int (.list .int))]) []
+    = .ok [.none (.pair .int (.list .int)), .none .nat, .none (.set .int)] := by rfl
+-- the machine answers the same, on these and on every other byte string (`exec_refines_spec`)
+example : Impl.run env0 20 (.seq [.PUSH .bytes (.bytes [5, 2, 0, 0, 0, 6, 0, 1, 0, 66, 0, 3]), .UNPACK tIIN]) []
+    = .ok [.some (.pair (.num .int 1) (.pair (.num .int (-2)) (.num .nat 3)))] :=
+  run_ok env0 20 _ [] _ (by rfl)
+-- a timestamp in its readable form is read by the environment's reader (a parameter: for EVERY such reader)
+example (rt : List Nat → Option Int) : Impl.run { env0 with readTimestamp := rt } 20 (.seq [.PUSH .bytes (.bytes [5, 1, 0, 0, 0, 1, 48]), .UNPACK .timestamp]) []
+    = .ok [match rt [48] with | some v => .some (.num .timestamp v) | none => .none .timestamp] :=
+  run_ok _ 20 _ [] _ (by
+    simp only [Spec.eval, Spec.evalSeq, Spec.step, Spec.stepMore, Spec.stepExt, Spec.unV, Spec.unpackV, Res.bind, Typing.unpackable]
+    cases h : rt [48] <;> simp [show Spec.Micheline.decode Spec.knownPrim [1, 0, 0, 0, 1, 48] = some (.str [48]) from by rfl, Spec.readVal, h])
+-- non-vacuity of `unpack_pack`: a comb with a set, a string and a negative number go through PACK and UNPACK unchanged
+def vRT : Val := .pair (.set .nat [.num .nat 1, .num .nat 7]) (.pair (.str [104, 105]) (.num .int (-30)))
+def tRT : Ty := .pair (.set .nat) (.pair .string .int)
+example : Typing.unpackable tRT = true ∧ WellFormed vRT ∧ typeOf vRT = tRT ∧ Interp.strOk vRT = true := ⟨by rfl, ⟨by rfl, by rfl⟩, by rfl, by rfl⟩
+example : Impl.run env0 5 (.seq [.PACK, .UNPACK tRT]) [vRT] = .ok [.some vRT] := run_ok env0 5 _ _ _ (by rfl)
+example : Impl.run env0 5 (.seq [.PACK, .UNPACK (.pair .int (.pair .int (.pair .int .int)))])
+      [.pair (.num .int 1) (.pair (.num .int 2) (.pair (.num .int 3) (.num .int 4)))]
+    = .ok [.some (.pair (.num .int 1) (.pair (.num .int 2) (.pair (.num .int 3) (.num .int 4))))] := run_ok env0 5 _ _ _ (by rfl)
+-- the hypothesis on strings is needed: a string with a control character is a value of the model's `string`, PACK serializes
+-- it, and UNPACK (like the protocol) refuses to read it back
+example : Impl.run env0 5 (.seq [.PACK, .UNPACK .string]) [.str [1]] = .ok [.none .string] := run_ok env0 5 _ _ _ (by rfl)
+-- UNPACK at a type with composite set elements, at `address`, at a lambda type: not in the model (ill-typed there)
+example : Typing.typeInstr false (.UNPACK (.set (.pair .int .int))) [.bytes] = none := by rfl
+example : Typing.typeInstr false (.UNPACK .address) [.bytes] = none := by rfl
+example : Typing.typeInstr false (.UNPACK (.map .string (.list (.option .mutez)))) [.bytes] = some (.ok [.option (.map .string (.list (.option .mutez)))]) := by rfl
+
+-- extension 3, phase 3: CHECK_SIGNATURE pushes what the verification function of the environment answers — for EVERY such function
+example (h : Hashes) (k s m : List Nat) :
+    Impl.run { env0 with hashes := h } 20 (.seq [.PUSH .bytes (.bytes m), .PUSH .signature (.atom .signature s), .PUSH .key (.atom .key k),
+      .CHECK_SIGNATURE, .IF (.seq [.UNIT]) (.seq [.UNIT, .FAILWITH])]) []
+      = if h.checkSig k s m then .ok [.unit] else .failed .unit :=
+  (run_eq_guarded _ 20 _ [] (by cases hc : h.checkSig k s m <;> simp [Spec.eval, Spec.evalSeq, Spec.step, Spec.stepMore, Spec.stepExt,
+      Spec.checkSignatureV, Res.bind, hc])
+    (by cases hc : h.checkSig k s m <;> simp [Spec.eval, Spec.evalSeq, Spec.step, Spec.stepMore, Spec.stepExt,
+      Spec.checkSignatureV, Res.bind, hc])).trans
+    (by cases hc : h.checkSig k s m <;> simp [Spec.eval, Spec.evalSeq, Spec.step, Spec.stepMore, Spec.stepExt,
+      Spec.checkSignatureV, Res.bind, hc])
+example : Typing.typeInstr false (.seq [.CHECK_SIGNATURE, .NOT]) [.key, .signature, .bytes] = some (.ok [.bool]) := by rfl
+example : Typing.typeInstr false .CHECK_SIGNATURE [.signature, .key, .bytes] = none := by rfl
+
+-- extension 3, phase 2: a big map created in the run — insertions in any order give the sorted bindings, GET / MEM / GET_AND_UPDATE
+-- answer like on a map, a removed key is gone, and the machine computes the same
+def progB : Instr :=
+  .seq [.EMPTY_BIG_MAP .string .nat,
+        .PUSH (.option .nat) (.some (.num .nat 2)), .PUSH .string (.str [98]), .UPDATE,
+        .PUSH (.option .nat) (.some (.num .nat 1)), .PUSH .string (.str [97]), .UPDATE,
+        .PUSH (.option .nat) (.none .nat), .PUSH .string (.str [98]), .GET_AND_UPDATE,
+        .SWAP, .DUP, .PUSH .string (.str [98]), .MEM, .SWAP, .DUP, .PUSH .string (.str [97]), .GET]
+example : Spec.eval true env0 30 progB []
+    = .ok [.some (.num .nat 1), .bigMap .string .nat [.pair (.str [97]) (.num .nat 1)], .bool false, .some (.num .nat 2)] := by rfl
+example : Impl.run env0 30 progB []
+    = .ok [.some (.num .nat 1), .bigMap .string .nat [.pair (.str [97]) (.num .nat 1)], .bool false, .some (.num .nat 2)] :=
+  run_ok env0 30 _ [] _ (by rfl)
+example : Typing.typeInstr false progB [] = some (.ok [.option .nat, .bigMap .string .nat, .bool, .option .nat]) := by rfl
+-- a big map is not pushable, not packable, not comparable, cannot hold a big map or an operation, and has no SIZE / ITER;
+-- APPLY cannot capture one (the captured value becomes a PUSH)
+example : Typing.typeInstr false (.PUSH (.bigMap .int .int) (.bigMap .int .int [])) [] = none := by rfl
+example : Typing.typeInstr false .PACK [.bigMap .int .int] = none := by rfl
+example : Typing.typeInstr false .COMPARE [.bigMap .int .int, .bigMap .int .int] = none := by rfl
+example : Typing.typeInstr false (.EMPTY_BIG_MAP .int (.bigMap .int .int)) [] = none := by rfl
+example : Typing.typeInstr false (.EMPTY_BIG_MAP .int .operation) [] = none := by rfl
+example : Typing.typeInstr false .SIZE [.bigMap .int .int] = none := by rfl
+example : Typing.typeInstr false .APPLY [.bigMap .int .int, .lambda (.pair (.bigMap .int .int) .unit) .unit] = none := by rfl
+example : Typing.typeInstr false (.seq [.DUP, .PAIR]) [.bigMap .int .int] = some (.ok [.pair (.bigMap .int .int) (.bigMap .int .int)]) := by rfl
 
 -- non-vacuity of `welltyped_run_eq_reference` / `progress`: a well-typed program with a loop, a lambda call and a sorted
 -- set literal, run on a well-typed input stack; the hypotheses hold and the run is inside the guard
